@@ -782,7 +782,11 @@ func (s *Server) serve(rawConn net.Conn, implicitTLS bool, sess *Session) {
 				return
 			}
 		default:
-			sess.violate("unknown-command", "unknown or malformed command %q", clip(line))
+			if line == "*" {
+				sess.violate("auth-cancel-after-final-reply", "client sent the AUTH cancel line \"*\" although no 334 challenge was pending (the previous reply was final)")
+			} else {
+				sess.violate("unknown-command", "unknown or malformed command %q", clip(line))
+			}
 			c.reply("500 5.5.2 command unrecognized [" + step + "]")
 			sess.Replies[step] = "500 5.5.2 command unrecognized [" + step + "]"
 		}
